@@ -431,6 +431,34 @@ theorem C06_create_time_uses_pinned_boot_time (tck : Nat) (b : Rat) (hb : b ≠ 
   simp [bind, Except.bind, rawView, pyFloat_renderDec, Spec.createTime, Rat.add_comm,
     xcfg_good.createUsesCachedBoot, hb]
 
+/-- A pinned BOOT_TIME of 0.0 is falsy in `BOOT_TIME or boot_time()`: /proc/stat IS read again and
+    the btime it holds NOW is used; the pin stays 0.0 (`boot_time()` only pins when it is None). -/
+theorem C06_create_time_zero_boot_time_rereads (tck : Nat) (w : ProcStatW) (hw : w.WF) (r : StatRec)
+    (hwf : r.WF) :
+    createTimeCall cfg xcfg tck (some 0) (renderProcStat w) (renderStat r)
+      = (.ok (Spec.createTime tck (w.btime : Rat) r), some 0) := by
+  unfold createTimeCall bootTimeCall
+  rw [C06_stat_roundtrip r hwf, C06_boot_time_exact w hw]
+  simp [bind, Except.bind, rawView, pyFloat_renderDec, Spec.createTime, Rat.add_comm,
+    xcfg_good.createUsesCachedBoot]
+
+/-- HISTORY of two `create_time()` calls in one interpreter (any two processes, /proc/stat
+    possibly rewritten in between — a stepped clock): the second call adds the btime the FIRST call
+    read, except when that was 0, in which case it adds the btime published at its own moment. -/
+theorem C06_create_time_two_calls (tck : Nat) (w1 w2 : ProcStatW) (hw1 : w1.WF) (hw2 : w2.WF)
+    (r1 r2 : StatRec) (h1 : r1.WF) (h2 : r2.WF) :
+    createTimeCall cfg xcfg tck
+        (createTimeCall cfg xcfg tck none (renderProcStat w1) (renderStat r1)).2
+        (renderProcStat w2) (renderStat r2)
+      = (.ok (Spec.createTime tck (((if w1.btime = 0 then w2.btime else w1.btime) : Nat) : Rat) r2),
+         some (w1.btime : Rat)) := by
+  rw [C06_create_time_end_to_end tck w1 hw1 r1 h1]
+  by_cases hz : w1.btime = 0
+  · simp only [hz, if_true, Nat.cast_zero]
+    exact C06_create_time_zero_boot_time_rereads tck w2 hw2 r2 h2
+  · simp only [hz, if_false]
+    exact C06_create_time_uses_pinned_boot_time tck _ (by exact_mod_cast hz) _ r2 h2
+
 /-! ## `threads()`: which threads, in which order -/
 
 /-- `thread_ids.sort()` puts the directory entries in ascending order of their NAMES — the decimal
@@ -466,7 +494,7 @@ theorem C06_threads_value (tck : Nat) (listing : List Nat) (recs : Nat → Optio
       cases hr : recs t with
       | none => exact absurd hr (h t ht')
       | some _ => simp
-    simp [hany]
+    simp [hany, xcfg_good.threadsHitStartsFalse]
 
 /-- … and when a thread vanished AND the process is gone at the end: NoSuchProcess, not a partial list -/
 theorem C06_threads_gone (tck : Nat) (listing : List Nat) (recs : Nat → Option StatRec)
@@ -478,6 +506,51 @@ theorem C06_threads_gone (tck : Nat) (listing : List Nat) (recs : Nat → Option
     rw [List.any_eq_true]
     exact ⟨t, (C06_threads_order listing).1.mem_iff.mpr ht, by simp [hv]⟩
   simp [hany, xcfg_good.threadsChecksAlive]
+
+/-- The same VALUE whatever the SIGNAL by which an ended thread shows (`sig t = false`:
+    FileNotFoundError when `task/<tid>/stat` is opened; `sig t = true`: ProcessLookupError, i.e.
+    ESRCH from `open` or from `read` of a file that was opened in time): both are skipped. -/
+theorem C06_threads_value_any_signal (tck : Nat) (listing : List Nat) (sig : Nat → Bool)
+    (recs : Nat → Option StatRec) (hwf : ∀ t r, recs t = some r → r.WF ∧ r.pid = t) (alive : Bool)
+    (hal : alive = true ∨ ∀ t ∈ listing, recs t ≠ none) :
+    threadsCall cfg xcfg tck listing (fun t => fileOfS (sig t) (recs t)) alive
+      = .ok ((Spec.threadsValue tck (sortTids xcfg listing) recs).map toOut) := by
+  unfold threadsCall
+  rw [scan_render_sig cfg cfg_good xcfg xcfg_good.threadsSkipsVanished xcfg_good.threadsSkipsEsrch tck sig
+    recs hwf]
+  rcases hal with h | h
+  · simp [h]
+  · have hany : ((sortTids xcfg listing).any fun t => (recs t).isNone) = false := by
+      rw [List.any_eq_false]
+      intro t ht
+      have ht' : t ∈ listing := (C06_threads_order listing).1.mem_iff.mp ht
+      cases hr : recs t with
+      | none => exact absurd hr (h t ht')
+      | some _ => simp
+    simp [hany, xcfg_good.threadsHitStartsFalse]
+
+/-- … and NoSuchProcess for either signal when the process is gone at the end -/
+theorem C06_threads_gone_any_signal (tck : Nat) (listing : List Nat) (sig : Nat → Bool)
+    (recs : Nat → Option StatRec) (hwf : ∀ t r, recs t = some r → r.WF ∧ r.pid = t) (t : Nat)
+    (ht : t ∈ listing) (hv : recs t = none) :
+    threadsCall cfg xcfg tck listing (fun t => fileOfS (sig t) (recs t)) false = .error .noSuchProcess := by
+  unfold threadsCall
+  rw [scan_render_sig cfg cfg_good xcfg xcfg_good.threadsSkipsVanished xcfg_good.threadsSkipsEsrch tck sig
+    recs hwf]
+  have hany : ((sortTids xcfg listing).any fun t => (recs t).isNone) = true := by
+    rw [List.any_eq_true]
+    exact ⟨t, (C06_threads_order listing).1.mem_iff.mpr ht, by simp [hv]⟩
+  simp [hany, xcfg_good.threadsChecksAlive]
+
+/-- The liveness of the process is looked at ONLY after a thread vanished (`hit_enoent` starts as
+    False): when every listed thread could be read, the per-thread views are returned even if the
+    process is gone by the end of the scan. -/
+theorem C06_threads_liveness_checked_only_after_vanish (tck : Nat) (listing : List Nat)
+    (recs : Nat → Option StatRec) (hwf : ∀ t r, recs t = some r → r.WF ∧ r.pid = t)
+    (hall : ∀ t ∈ listing, recs t ≠ none) (alive : Bool) :
+    threadsCall cfg xcfg tck listing (fun t => fileOf (recs t)) alive
+      = .ok ((Spec.threadsValue tck (sortTids xcfg listing) recs).map toOut) :=
+  C06_threads_value tck listing recs hwf alive (Or.inr hall)
 
 /-- old kernels: a thread record that ends at `policy` (no `delayacct_blkio_ticks` …) is read
     exactly like a full one — `threads()` only indexes columns 11 and 12 after the name -/
